@@ -119,6 +119,23 @@ def reSplitAux (p : Re) : Nat → Str → Str → Str → List Str
     | none => reSplitAux p n (c :: pre) (c :: cur) cs
 def reSplit (p : Re) (s : Str) : List Str := reSplitAux p (s.length + 1) [] [] s
 
+/-- Python's `<` on str: lexicographic by code point -/
+def ltStr : Str → Str → Bool
+  | [], [] => false
+  | [], _ :: _ => true
+  | _ :: _, [] => false
+  | a :: as, b :: bs => if a.toNat < b.toNat then true else if b.toNat < a.toNat then false else ltStr as bs
+
+def insertStr (x : Str) : List Str → List Str
+  | [] => [x]
+  | y :: ys => if ltStr y x then y :: insertStr x ys else x :: y :: ys      -- after the elements strictly smaller: equal strings are equal
+
+/-- `sorted(xs)` for a list (or set) of str -/
+def sortStr (xs : List Str) : List Str := xs.foldr insertStr []
+
+/-- `set(xs)` as a duplicate-free list (only ever consumed by `sorted` or a truth test) -/
+def dedup (xs : List Str) : List Str := xs.eraseDups
+
 def strIn (x : Str) (xs : List Str) : Bool := xs.contains x
 
 end GapicModel.PyRt
